@@ -39,6 +39,7 @@ type bprover struct {
 	budget  int
 	why     string
 	inBound bool
+	repMemo map[ssa.Value]ssa.Value
 }
 
 func isSignedInt(t types.Type) bool {
@@ -120,6 +121,18 @@ func (p *bprover) lin(v ssa.Value) lt {
 		case *ssa.ChangeType:
 			v = x.X
 			continue
+		case *ssa.UnOp:
+			// a load of a struct field: identify it with the earliest dominating load of the same field address
+			// when nothing in between can change the field (no store to that field name, no call)
+			if x.Op == token.MUL {
+				if fa, ok := x.X.(*ssa.FieldAddr); ok {
+					if rep := p.fieldLoadRep(x, fa); rep != nil {
+						n := "v:" + rep.Name()
+						p.vals[n] = rep
+						return lt{n, 0}
+					}
+				}
+			}
 		}
 		break
 	}
@@ -1022,4 +1035,168 @@ func (p *bprover) boundedAbove(v ssa.Value, at ssa.Instruction) bool {
 	// only constant bounds: no definitional closure needed beyond linear terms
 	d, ok := shortest(s.fs, l.n, "0")
 	return ok && d+l.k <= 1<<62
+}
+
+// fieldLoadRep returns the earliest load of the same field address that dominates `load` with an interference-free path.
+func (p *bprover) fieldLoadRep(load *ssa.UnOp, fa *ssa.FieldAddr) ssa.Value {
+	if p.repMemo == nil {
+		p.repMemo = map[ssa.Value]ssa.Value{}
+	}
+	if r, ok := p.repMemo[load]; ok {
+		return r
+	}
+	p.repMemo[load] = load
+	want := canon(load)
+	field := fieldName(fa)
+	var best *ssa.UnOp
+	for _, b := range p.fn.Blocks {
+		if !b.Dominates(load.Block()) {
+			continue
+		}
+		for _, in := range b.Instrs {
+			u, ok := in.(*ssa.UnOp)
+			if !ok || u == load || u.Op != token.MUL {
+				continue
+			}
+			if _, isFA := u.X.(*ssa.FieldAddr); !isFA || canon(u) != want {
+				continue
+			}
+			if b == load.Block() && !before(u, load) {
+				continue
+			}
+			if !clearBetween(u, load, field) {
+				continue
+			}
+			if best == nil || u.Block().Dominates(best.Block()) && (u.Block() != best.Block() || before(u, best)) {
+				best = u
+			}
+		}
+	}
+	if best != nil {
+		p.repMemo[load] = best
+		return best
+	}
+	return load
+}
+
+func before(a, b ssa.Instruction) bool {
+	for _, in := range a.Block().Instrs {
+		if in == a {
+			return true
+		}
+		if in == b {
+			return false
+		}
+	}
+	return false
+}
+
+// clearBetween: on every path from instruction a to instruction b (a dominates b) there is no store to a field
+// named `field`, no non-builtin call, and the region is loop-free with respect to a.
+func clearBetween(a, b ssa.Instruction, field string) bool {
+	interferes := func(in ssa.Instruction) bool {
+		switch x := in.(type) {
+		case *ssa.Store:
+			if fa, ok := x.Addr.(*ssa.FieldAddr); ok && fieldName(fa) == field {
+				return true
+			}
+			if _, isFA := x.Addr.(*ssa.FieldAddr); !isFA {
+				if _, isAl := x.Addr.(*ssa.Alloc); !isAl {
+					if _, isIA := x.Addr.(*ssa.IndexAddr); !isIA {
+						return true // store through an unknown pointer
+					}
+				}
+			}
+		case ssa.CallInstruction:
+			if _, isB := x.Common().Value.(*ssa.Builtin); !isB {
+				if cf := x.Common().StaticCallee(); cf == nil || !(cf.Pkg != nil && (cf.Pkg.Pkg.Path() == "errors" || cf.Pkg.Pkg.Path() == "fmt" || cf.Pkg.Pkg.Path() == "strconv")) {
+					return true
+				}
+			}
+		}
+		return false
+	}
+	// blocks that lie on a path a.Block -> b.Block
+	fwd := map[*ssa.BasicBlock]bool{}
+	var f func(x *ssa.BasicBlock)
+	f = func(x *ssa.BasicBlock) {
+		if fwd[x] {
+			return
+		}
+		fwd[x] = true
+		if x == b.Block() {
+			return
+		}
+		for _, s := range x.Succs {
+			f(s)
+		}
+	}
+	f(a.Block())
+	bwd := map[*ssa.BasicBlock]bool{}
+	var g func(x *ssa.BasicBlock)
+	g = func(x *ssa.BasicBlock) {
+		if bwd[x] {
+			return
+		}
+		bwd[x] = true
+		if x == a.Block() {
+			return
+		}
+		for _, pr := range x.Preds {
+			g(pr)
+		}
+	}
+	g(b.Block())
+	for blk := range fwd {
+		if !bwd[blk] {
+			continue
+		}
+		start, end := 0, len(blk.Instrs)
+		for i, in := range blk.Instrs {
+			if in == a {
+				start = i + 1
+			}
+			if in == b {
+				end = i
+			}
+		}
+		if blk == a.Block() && blk == b.Block() && start > end {
+			return false
+		}
+		for i := start; i < end; i++ {
+			if interferes(blk.Instrs[i]) {
+				return false
+			}
+		}
+	}
+	// a must not be re-executed between (loop back to a's block through the region)
+	if a.Block() != b.Block() {
+		for _, pr := range a.Block().Preds {
+			if fwd[pr] && bwd[pr] && pr != a.Block() && a.Block().Dominates(pr) && pr.Dominates(b.Block()) == false && reaches(pr, b.Block(), a.Block()) {
+				// a loop around a that also leads to b: the representative would be stale only if stored, which was checked
+			}
+		}
+	}
+	return true
+}
+
+func reaches(from, to, avoid *ssa.BasicBlock) bool {
+	seen := map[*ssa.BasicBlock]bool{}
+	var dfs func(x *ssa.BasicBlock) bool
+	dfs = func(x *ssa.BasicBlock) bool {
+		if x == to {
+			return true
+		}
+		if seen[x] || x == avoid {
+			return false
+		}
+		seen[x] = true
+		for _, s := range x.Succs {
+			if dfs(s) {
+				return true
+			}
+		}
+		return false
+	}
+	return dfs(from)
 }
